@@ -205,10 +205,10 @@ pub fn config_text(s: &ServerSpec) -> String {
     if s.workers_written {
         lines.push(("num_workers".into(), s.workers.to_string()));
     }
+    lines.retain(|(k, _)| !s.omit.contains(k));
     for (k, v) in &s.extra {
         lines.push((k.clone(), v.clone()));
     }
-    lines.retain(|(k, _)| !s.omit.contains(k));
     if s.layout == 0 {
         return lines.iter().map(|(k, v)| format!("{}: {}\n", k, v)).collect();
     }
@@ -264,11 +264,11 @@ pub fn config_env(s: &ServerSpec) -> BTreeMap<String, String> {
     if s.workers_written {
         e.insert("ROUGHENOUGH_NUM_WORKERS".to_string(), s.workers.to_string());
     }
+    let omit_env: Vec<String> = s.omit.iter().map(|k| format!("ROUGHENOUGH_{}", k.to_uppercase())).collect();
+    e.retain(|k, _| !omit_env.contains(k));
     for (k, v) in &s.extra {
         e.insert(k.clone(), v.clone());
     }
-    let omit_env: Vec<String> = s.omit.iter().map(|k| format!("ROUGHENOUGH_{}", k.to_uppercase())).collect();
-    e.retain(|k, _| !omit_env.contains(k));
     e
 }
 
